@@ -13,7 +13,7 @@
 From Coq Require Import String List Bool NArith Arith Lia.
 Import ListNotations.
 From BT Require Import Base.Bytes Model.GenTypes Model.VT Model.Renderer Model.EvLoop Spec.Modes Model.Lifecycle.
-From BT Require Import Proof.RenderStop.
+From BT Require Import Proof.RenderStop Proof.RendererBasics.
 From BTGen Require Dispatch Lifecycle.
 Open Scope list_scope.
 Open Scope nat_scope.
@@ -109,15 +109,44 @@ Definition cmd_effect (c : modecmd) (r : rstate) : rstate * list tok :=
   | MClear => r_clear_screen r
   end.
 
-Lemma cmd_effect_ok shared c r t : tracker_ok shared r t ->
-  tracker_ok shared (fst (cmd_effect c r)) (vt_run shared t (snd (cmd_effect c r))) /\
-  vt_modes (vt_run shared t (snd (cmd_effect c r))) = apply (vt_modes t) c.
+(* the same with the bare switch for EnterAltScreen (no flush of queued lines before it) *)
+Definition cmd_effect_core (c : modecmd) (r : rstate) : rstate * list tok :=
+  match c with MEnterAlt => r_enter_alt_core r | _ => cmd_effect c r end.
+
+Lemma cmd_effect_core_ok shared c r t : tracker_ok shared r t ->
+  tracker_ok shared (fst (cmd_effect_core c r)) (vt_run shared t (snd (cmd_effect_core c r))) /\
+  vt_modes (vt_run shared t (snd (cmd_effect_core c r))) = apply (vt_modes t) c.
 Proof.
   destruct t as [W H mb ab ia vm va mc ma ms mp mf ti].
   destruct r as [rb rq rl rll rn ran rch ralt rbp rfo rw rh].
   unfold tracker_ok, hidden_active. cbn [r_alt r_cursorHidden r_bp r_focus in_alt vis_alt vis_main m_paste m_focus].
   intros (E1 & E2 & E3 & E4). subst ralt rch rbp rfo.
   destruct c, shared, ia, vm, va; cbn; repeat split.
+Qed.
+
+Lemma flush_tracker shared r t : tracker_ok shared r t ->
+  tracker_ok shared (fst (r_flush r)) (vt_run shared t (snd (r_flush r))) /\
+  flags (vt_run shared t (snd (r_flush r))) = flags t.
+Proof.
+  intros H. pose proof (draw_flags shared _ t (st_cell_flush r)) as Hf. split; [|exact Hf].
+  apply (flags_tracker shared _ t); [symmetry; exact Hf|].
+  destruct (flush_keeps r) as (E1 & E2 & E3 & E4).
+  destruct H as (H1 & H2 & H3 & H4). unfold tracker_ok. rewrite E1, E2, E3, E4. repeat split; assumption.
+Qed.
+
+Lemma cmd_effect_ok shared c r t : tracker_ok shared r t ->
+  tracker_ok shared (fst (cmd_effect c r)) (vt_run shared t (snd (cmd_effect c r))) /\
+  vt_modes (vt_run shared t (snd (cmd_effect c r))) = apply (vt_modes t) c.
+Proof.
+  intros H.
+  assert (Hc : c <> MEnterAlt -> cmd_effect c r = cmd_effect_core c r) by (destruct c; intros N; try reflexivity; exfalso; apply N; reflexivity).
+  destruct c; try (rewrite Hc by discriminate; apply cmd_effect_core_ok; exact H).
+  cbn [cmd_effect]. destruct (enter_alt_cases r) as [E|(_ & _ & E)]; rewrite E.
+  - exact (cmd_effect_core_ok shared MEnterAlt r t H).
+  - cbn [fst snd]. rewrite vt_run_app'.
+    destruct (flush_tracker shared r t H) as [H1 Hf].
+    destruct (cmd_effect_core_ok shared MEnterAlt (fst (r_flush r)) _ H1) as [H2 Hm]. cbn [cmd_effect_core] in H2, Hm.
+    split; [exact H2|]. rewrite Hm. f_equal. apply flags_modes. exact Hf.
 Qed.
 
 (* the generated table: each command has a case that falls through to Update
@@ -294,11 +323,47 @@ Proof.
   destruct (r_stop r) as [r1 o1]. reflexivity.
 Qed.
 
-(* on a terminal in its default modes, with the remembered triple (wa, wb, wf) *)
-Lemma restore_term_ok shared wa wb wf r t : tracker_ok shared r t -> vt_modes t = defaults ->
-  let '(r2, toks2, ok2) := restore_term BTGen.Lifecycle.restore_terminal_calls dm (wa, wb, wf) r in
-  ok2 = true /\ tracker_ok shared r2 (vt_run shared t toks2) /\
-  vt_modes (vt_run shared t toks2) = mk_modes wa true false false false wb wf.
+(* on a terminal in its default modes, with the remembered triple (wa, wb, wf).
+   RestoreTerminal's calls, written out: initTerminal (hide the cursor), enterAltScreen when the alt screen was active,
+   then bracketed paste and focus reporting as remembered.  enterAltScreen may first flush queued lines (drawing tokens
+   only: the flags of renderer and terminal are untouched), so the statement is proved for the bare switch by the sweep
+   below and lifted over the flush. *)
+Definition rt_tail (wb wf : bool) (r : rstate) : rstate * list tok :=
+  let '(r1, t1) := if wb then r_enable_paste r else (r, []) in
+  let '(r2, t2) := if wf then r_enable_focus r1 else (r1, []) in (r2, t1 ++ t2).
+
+Definition rt_explicit (core : bool) (wa wb wf : bool) (r : rstate) : rstate * list tok :=
+  let '(r0, t0) := r_hide_cursor r in
+  let '(r1, t1) := if wa then (if core then r_enter_alt_core r0 else r_enter_alt r0) else (r0, []) in
+  let '(r2, t2) := rt_tail wb wf r1 in (r2, t0 ++ t1 ++ t2).
+
+Lemma restore_term_explicit wa wb wf r :
+  restore_term BTGen.Lifecycle.restore_terminal_calls dm (wa, wb, wf) r =
+  (fst (rt_explicit false wa wb wf r), snd (rt_explicit false wa wb wf r), true).
+Proof.
+  Opaque r_enter_alt.
+  unfold rt_explicit, rt_tail. destruct wa, wb, wf; cbn;
+    try (destruct (r_enter_alt _) as [ra ta]; cbn); rewrite <- ?app_assoc, ?app_nil_r; reflexivity.
+  Transparent r_enter_alt.
+Qed.
+
+(* the tail after the switch: paste and focus as remembered, from any tracked state *)
+Lemma rt_tail_ok shared wb wf r t : tracker_ok shared r t -> m_paste t = false -> m_focus t = false ->
+  tracker_ok shared (fst (rt_tail wb wf r)) (vt_run shared t (snd (rt_tail wb wf r))) /\
+  vt_modes (vt_run shared t (snd (rt_tail wb wf r))) =
+    mk_modes (a_alt (vt_modes t)) (a_hidden (vt_modes t)) (a_cell (vt_modes t)) (a_all (vt_modes t)) (a_sgr (vt_modes t)) wb wf.
+Proof.
+  destruct t as [W H mb ab ia vm va mc ma ms mp mf ti].
+  destruct r as [rb rq rl rll rn ran rch ralt rbp rfo rw rh].
+  unfold tracker_ok, hidden_active, vt_modes, mk_modes.
+  cbn [r_alt r_cursorHidden r_bp r_focus in_alt vis_alt vis_main m_cell m_all m_sgr m_paste m_focus].
+  intros (E1 & E2 & E3 & E4) Ep Ef. subst ralt rch rbp rfo mp mf.
+  destruct shared, wb, wf, ia, vm, va; vm_compute; repeat split.
+Qed.
+
+Lemma rt_core_ok shared wa wb wf r t : tracker_ok shared r t -> vt_modes t = defaults ->
+  tracker_ok shared (fst (rt_explicit true wa wb wf r)) (vt_run shared t (snd (rt_explicit true wa wb wf r))) /\
+  vt_modes (vt_run shared t (snd (rt_explicit true wa wb wf r))) = mk_modes wa true false false false wb wf.
 Proof.
   destruct t as [W H mb ab ia vm va mc ma ms mp mf ti].
   destruct r as [rb rq rl rll rn ran rch ralt rbp rfo rw rh].
@@ -307,6 +372,37 @@ Proof.
   intros (E1 & E2 & E3 & E4) Ed. subst ralt rch rbp rfo.
   injection Ed as D1 D2 D3 D4 D5 D6 D7. subst ia mc ma ms mp mf.
   destruct shared, wa, wb, wf, vm, va; try discriminate D2; vm_compute; repeat split.
+Qed.
+
+Lemma restore_term_ok shared wa wb wf r t : tracker_ok shared r t -> vt_modes t = defaults ->
+  let '(r2, toks2, ok2) := restore_term BTGen.Lifecycle.restore_terminal_calls dm (wa, wb, wf) r in
+  ok2 = true /\ tracker_ok shared r2 (vt_run shared t toks2) /\
+  vt_modes (vt_run shared t toks2) = mk_modes wa true false false false wb wf.
+Proof.
+  intros Htr Hdef. rewrite restore_term_explicit. split; [reflexivity|].
+  destruct wa; [|exact (rt_core_ok shared false wb wf r t Htr Hdef)].
+  (* the alt screen was active: enterAltScreen, possibly after a flush *)
+  pose proof (rt_core_ok shared true wb wf r t Htr Hdef) as Hcore.
+  unfold rt_explicit in *. destruct (r_hide_cursor r) as [r0 t0] eqn:Eh.
+  destruct (enter_alt_cases r0) as [E|(_ & _ & E)]; rewrite E; [exact Hcore|].
+  (* flush first: drawing tokens only *)
+  assert (Htr0 : tracker_ok shared r0 (vt_run shared t t0) /\ vt_modes (vt_run shared t t0) = apply (vt_modes t) MHideCursor).
+  { pose proof (cmd_effect_core_ok shared MHideCursor r t Htr) as P. cbn [cmd_effect_core cmd_effect] in P. rewrite Eh in P. exact P. }
+  destruct Htr0 as [Htr0 Hm0].
+  destruct (flush_tracker shared r0 _ Htr0) as [Htr1 Hf1].
+  set (rF := fst (r_flush r0)) in *. set (tF := snd (r_flush r0)) in *.
+  (* the bare switch from the flushed state, on the terminal after the flush *)
+  pose proof (cmd_effect_core_ok shared MEnterAlt rF _ Htr1) as [Htr2 Hm2]. cbn [cmd_effect_core] in Htr2, Hm2.
+  destruct (r_enter_alt_core rF) as [r1 t1] eqn:Ec. cbn [fst snd] in *.
+  assert (Hmodes2 : vt_modes (vt_run shared (vt_run shared (vt_run shared t t0) tF) t1) = mk_modes true true false false false false false).
+  { rewrite Hm2. rewrite (flags_modes _ _ Hf1), Hm0, Hdef. reflexivity. }
+  assert (Hp : m_paste (vt_run shared (vt_run shared (vt_run shared t t0) tF) t1) = false /\
+               m_focus (vt_run shared (vt_run shared (vt_run shared t t0) tF) t1) = false).
+  { unfold vt_modes, mk_modes in Hmodes2. injection Hmodes2 as _ _ _ _ _ P6 P7. split; assumption. }
+  destruct Hp as [Hp6 Hp7].
+  pose proof (rt_tail_ok shared wb wf r1 _ Htr2 Hp6 Hp7) as [Htr3 Hm3].
+  destruct (rt_tail wb wf r1) as [r2 t2]. cbn [fst snd] in *.
+  rewrite !vt_run_app'. split; [exact Htr3|]. rewrite Hm3, Hmodes2. reflexivity.
 Qed.
 
 (* ReleaseTerminal leaves the terminal in its default modes and remembers alt
@@ -414,8 +510,11 @@ Lemma cmd_effect_no_exit c r : c <> MExitAlt -> Forall (fun k => k <> TReset 104
 Proof.
   intros Hc. destruct c; try (exfalso; apply Hc; reflexivity); cbn [cmd_effect];
     try (cbn; repeat constructor; discriminate).
-  unfold r_enter_alt, vis_tok. destruct (r_alt r); [constructor|]. cbn [snd].
-  destruct (r_cursorHidden r); repeat constructor; discriminate.
+  assert (Hcore : forall r0, Forall (fun k => k <> TReset 1049%N) (snd (r_enter_alt_core r0))).
+  { intros r0. unfold r_enter_alt_core, vis_tok. destruct (r_alt r0); [constructor|]. cbn [snd].
+    destruct (r_cursorHidden r0); repeat constructor; discriminate. }
+  destruct (enter_alt_cases r) as [E|(_ & _ & E)]; rewrite E; [apply Hcore|]. cbn [snd].
+  apply Forall_app. split; [apply st_cell_not_exit, st_cell_flush|apply Hcore].
 Qed.
 
 Lemma startup_alt_main shared o w h hist used : o_alt o = true ->
